@@ -242,6 +242,10 @@ def forkStateOf (fm jm : Option MState) (cs : List (Option MState)) (sm : Option
         | some st => .split st
         | none => .ready
 
+/-- the order in which `forkStateOf` (= `Fork.getState`) consults the fork's members
+(compared with the regenerated fact `Gen.forkStateOrder`) -/
+def forkStateOrderNames : List String := ["metadata", "join_metadata", "chunks", "split_metadata"]
+
 /-- `Fork.getState` -/
 def forkState (s : State) (n f : Nat) : FState :=
   forkStateOf (s.st ⟨n, f, .fork⟩) (s.st ⟨n, f, .join⟩) (chunkStates s n f) (s.st ⟨n, f, .split⟩)
